@@ -323,10 +323,13 @@ struct DCodec {
   acc: BytesMut,
   primed: bool,
   use_prefix: bool,
+  switch_buffers: bool,
 }
 impl StreamDecoder for DCodec {
   fn name(&self) -> &'static str {
-    if self.use_prefix {
+    if self.switch_buffers {
+      "codec.decode(prefix handed over at every read)"
+    } else if self.use_prefix {
       "codec.decode(primed prefix)"
     } else {
       "codec.decode"
@@ -336,7 +339,16 @@ impl StreamDecoder for DCodec {
     false
   }
   fn feed(&mut self, chunk: &[u8]) -> (Vec<Dec>, Option<String>) {
-    if self.use_prefix && !self.primed {
+    if self.switch_buffers {
+      // a buffer switch at every read: whatever the codec has not consumed yet (possibly the first part of
+      // a frame's body, its header already taken) is handed back as the prefix, and the new read comes in a
+      // fresh buffer
+      let rest = self.acc.split();
+      if !rest.is_empty() {
+        self.c.prime_with_prefix(rest);
+      }
+      self.acc = BytesMut::from(chunk);
+    } else if self.use_prefix && !self.primed {
       // the first read becomes the primed prefix; decode is first called on the next read
       self.primed = true;
       self.c.prime_with_prefix(BytesMut::from(chunk));
@@ -402,8 +414,9 @@ pub fn decoders(maxmsg: i64) -> Vec<Box<dyn StreamDecoder>> {
     Box::new(DSlice { p: ZmtpManualParser::new(maxmsg), acc: Vec::new() }),
     Box::new(DBytes { p: ZmtpManualParser::new(maxmsg), acc: BytesMut::new() }),
     Box::new(DPeek { p: ZmtpManualParser::new(maxmsg), acc: Vec::new() }),
-    Box::new(DCodec { c: ZmtpCodec::new(), acc: BytesMut::new(), primed: false, use_prefix: false }),
-    Box::new(DCodec { c: ZmtpCodec::new(), acc: BytesMut::new(), primed: false, use_prefix: true }),
+    Box::new(DCodec { c: ZmtpCodec::new(), acc: BytesMut::new(), primed: false, use_prefix: false, switch_buffers: false }),
+    Box::new(DCodec { c: ZmtpCodec::new(), acc: BytesMut::new(), primed: false, use_prefix: true, switch_buffers: false }),
+    Box::new(DCodec { c: ZmtpCodec::new(), acc: BytesMut::new(), primed: false, use_prefix: false, switch_buffers: true }),
     Box::new(DNullFramer { f: NullFramerX::new(maxmsg, 4, 1024), acc: BytesMut::new(), bulk: false }),
     Box::new(DNullFramer { f: NullFramerX::new(maxmsg, 4, 1024), acc: BytesMut::new(), bulk: true }),
   ]
